@@ -12,6 +12,14 @@
 (*   rl_blox.blox.embedding.model_based_encoder                                 *)
 (*     .model_based_encoder_loss                            -> EncoderLoss      *)
 (*                                                                              *)
+(* Histories of live objects / training routines are separate modules over the  *)
+(* same operators (ReturnsOps.tla): ReturnsRollout (PPO rollouts of a vector    *)
+(* environment), ReturnsA2CRollout (A2C: emitted (terminated, truncated) flags  *)
+(* -> rollout buffer -> prepare_a2c_batch, judged against what was emitted),    *)
+(* ReturnsMRQ / ReturnsMRQTrace (train_mrq's own buffer: horizon construction + *)
+(* sampling horizons -> windows of one episode -> critic target), and           *)
+(* ReturnsDataset (one EpisodeDataset object).                                  *)
+(*                                                                              *)
 (* The "state machine" is a staged choice of one test vector                    *)
 (*   init -> shape (operation, rows B, steps H, discount parameters)            *)
 (*        -> flags (termination pattern, exhaustive)                            *)
